@@ -174,3 +174,49 @@ def canon(vj):
 
 def has_surrogates(s):
     return any(0xD800 <= ord(c) <= 0xDFFF for c in s)
+
+
+# ---- record specs shared by the selector properties: [[type, name, value spec]...] ------------------------------
+
+def EPOCH():
+    import datetime
+    return datetime.datetime(2020, 1, 1, tzinfo=datetime.timezone.utc)
+
+
+def build_field(t, spec):
+    """value spec -> the Python value handed to the record constructor (bytes as hex, datetime as ISO text,
+    digest as 3-list, record as {"name":..., "fields": [[type, name, spec]...]}, x[] as list of specs)."""
+    import datetime
+    if spec is None:
+        return None
+    if t.endswith("[]"):
+        return [build_field(t[:-2], x) for x in spec]
+    if t == "bytes":
+        return bytes.fromhex(spec)
+    if t == "datetime":
+        return datetime.datetime.fromisoformat(spec)
+    if t == "digest":
+        return tuple(spec)
+    if t == "float" and isinstance(spec, str):
+        import struct
+        return struct.unpack(">d", bytes.fromhex(spec))[0]
+    if t == "record":
+        if "fields" in spec:
+            return build_record(spec["name"], spec["fields"])
+        return build_record("t/sub", [["string", "q", spec["q"]]])
+    return spec
+
+
+_desc_cache = {}
+
+
+def build_record(name, fields):
+    import warnings
+
+    from flow.record import RecordDescriptor
+    key = (name, tuple((t, n) for t, n, _ in fields))
+    if key not in _desc_cache:
+        _desc_cache[key] = RecordDescriptor(name, [(t, n) for t, n, _ in fields])
+    with warnings.catch_warnings():
+        warnings.simplefilter("ignore")
+        return _desc_cache[key](_generated=EPOCH(), **{n: build_field(t, v) for t, n, v in fields})
